@@ -2,6 +2,7 @@ import Zstd.Proofs.HufShape
 import Zstd.Proofs.HufCanon
 import Zstd.Proofs.HufDesc
 import Zstd.Proofs.HufCounts
+import Zstd.Proofs.HufRoundtripFse
 /-
 C13 — Huffman tables are valid and literal coding round-trips for every distribution.
 
@@ -258,14 +259,16 @@ theorem compressor_table_valid (counts : List Nat) (hlen : counts.length ≤ 256
   unfold buildFromCounts
   rw [shape_depends_on_n counts.length (rankOrder counts) ws wd hlen hs s1, b1]
 
-/-- The table `build_from_counts` returns for a histogram whose last entry is non-zero (as in
-`build_from_data`: `counts[..=max]`) is a complete code in the sense the description round trips
-need (`KraftTable`): at least two symbols, depth `M ≤ 11`, a symbol of length `M`, the last symbol
-used, Kraft sum `2^M`. -/
-theorem compressor_table_kraft (counts : List Nat) (hlen : counts.length ≤ 256)
+/-- **The table `build_from_counts` returns is canonical** (`CanonTable`): for a histogram with at
+most 256 entries, 2 … 256 of them non-zero, the last one non-zero (as in `build_from_data`:
+`counts[..=max]`), it is `build_from_weights` of a weight vector `wd` with Kraft sum `2^m`, `m ≤ 11`,
+containing the weight 1, whose last weight is not zero.  Everything below (descriptions, streams) is
+proved for canonical tables. -/
+theorem compressor_table_canon (counts : List Nat) (hlen : counts.length ≤ 256)
     (hn : 2 ≤ counts.length - ((rankOrder counts).filter (·.2)).length)
     (hlast : ∀ c, counts.getLast? = some c → c ≠ 0) :
-    ∃ t M, buildFromCounts counts = .ok t ∧ KraftTable t M := by
+    ∃ t wd m, buildFromCounts counts = .ok t ∧ CanonTable t wd m ∧ wd.length = counts.length ∧
+      (∀ s (h : s < counts.length), counts[s] ≠ 0 → ∃ h' : s < wd.length, wd[s] > 0) := by
   obtain ⟨ws, hs, hwl, hge1, _, hhead, hpow, hlog⟩ :=
     shape_valid (counts.length - ((rankOrder counts).filter (·.2)).length) hn (by omega)
   obtain ⟨p1, p2, p3⟩ := rankOrder_props counts
@@ -294,79 +297,45 @@ theorem compressor_table_kraft (counts : List Nat) (hlen : counts.length ≤ 256
       omega
     · omega
   have hwdlen : wd.length = counts.length := by rw [s2]; simp
-  obtain ⟨t, b1, b2⟩ := buildFromWeights_ok wd (Nat.log2 (weightSum ws)) (by omega)
+  obtain ⟨t, b1, _⟩ := buildFromWeights_ok wd (Nat.log2 (weightSum ws)) (by omega)
     (by omega) hwdle (by rw [s3]; exact hsum)
   have hbuild : buildFromCounts counts = .ok t := by
     unfold buildFromCounts
     rw [shape_depends_on_n counts.length (rankOrder counts) ws wd hlen hs s1, b1]
-  refine ⟨t, Nat.log2 (weightSum ws), hbuild, ?_⟩
-  -- every code in terms of the weight of its symbol
-  have hcode : ∀ (s : Nat) (c : Nat × Nat), t.codes[s]? = some c →
-      ∃ w, wd[s]? = some w ∧ c.2 = (if w = 0 then 0 else Nat.log2 (weightSum ws) + 1 - w) := by
-    intro s c hc
-    have hs' : s < wd.length := by
-      rcases Nat.lt_or_ge s t.codes.length with h | h
-      · rw [b2.len] at h; exact h
-      · rw [List.getElem?_eq_none h] at hc; cases hc
-    refine ⟨wd[s], List.getElem?_eq_getElem hs', ?_⟩
-    by_cases h0 : wd[s] = 0
-    · rw [b2.unused s hs' h0] at hc
-      simp only [Option.some.injEq] at hc
-      rw [← hc]; simp [h0]
-    · obtain ⟨c', q1, _⟩ := b2.used s hs' (by omega)
-      rw [q1] at hc
-      simp only [Option.some.injEq] at hc
-      rw [← hc]; simp [h0]
-  refine ⟨by rw [b2.len]; omega, by rw [b2.len]; omega, ?_, ?_, hm1, hlog, ?_, ?_⟩
-  · intro c hc
-    obtain ⟨s, hs'⟩ := List.mem_iff_getElem?.mp hc
-    obtain ⟨w, _, q⟩ := hcode s c hs'
-    rw [q]; split <;> omega
-  · obtain ⟨s, hs'⟩ := List.mem_iff_getElem?.mp (w3 1 hone)
-    have hs'' : s < wd.length := by
-      rcases Nat.lt_or_ge s wd.length with h | h
-      · exact h
-      · rw [List.getElem?_eq_none h] at hs'; cases hs'
-    have hw1 : wd[s] = 1 := by rw [List.getElem?_eq_getElem hs''] at hs'; simpa using hs'
-    obtain ⟨c', q1, _⟩ := b2.used s hs'' (by omega)
-    refine ⟨_, List.mem_iff_getElem?.mpr ⟨s, q1⟩, ?_⟩
-    simp only [hw1]; omega
-  · intro c hc
-    rw [List.getLast?_eq_getElem?, b2.len, hwdlen] at hc
-    obtain ⟨w, q1, q2⟩ := hcode _ c hc
-    -- the last symbol occurs, so it received a shape weight
-    have hL : counts.length - 1 < counts.length := by omega
-    have hmem := rankOrder_mem counts (counts.length - 1) hL
-    have hne : counts[counts.length - 1] ≠ 0 := by
-      apply hlast
-      rw [List.getLast?_eq_getElem?, List.getElem?_eq_getElem hL]
-    have hflag : (counts[counts.length - 1] == 0) = false := by simpa using hne
-    obtain ⟨x, hx, hx'⟩ := w2 _ hmem hflag
+  refine ⟨t, wd, Nat.log2 (weightSum ws), hbuild,
+    ⟨b1, by omega, by omega, hm1, hlog, hwdle, by rw [s3]; exact hsum, w3 1 hone, ?_⟩, hwdlen, ?_⟩
+  rotate_left
+  · intro s hsc hne
+    have hflag : (counts[s] == 0) = false := by simpa using hne
+    obtain ⟨x, hx, hx'⟩ := w2 _ (rankOrder_mem counts s hsc) hflag
     simp only at hx'
-    rw [hx'] at q1
-    simp only [Option.some.injEq] at q1
-    subst q1
-    have := hge1 x hx
-    have := hwdle x (List.mem_iff_getElem?.mpr ⟨_, hx'⟩)
-    rw [q2, if_neg (by omega)]; omega
-  · have : (t.codes.map fun c => if c.2 = 0 then 0 else Nat.log2 (weightSum ws) - c.2 + 1) = wd := by
-      apply List.ext_getElem?
-      intro s
-      rw [List.getElem?_map]
-      rcases Nat.lt_or_ge s wd.length with h | h
-      · have hc : s < t.codes.length := by rw [b2.len]; exact h
-        rw [List.getElem?_eq_getElem hc, List.getElem?_eq_getElem h]
-        obtain ⟨w, q1, q2⟩ := hcode s t.codes[s] (List.getElem?_eq_getElem hc)
-        rw [List.getElem?_eq_getElem h] at q1
-        simp only [Option.some.injEq] at q1
-        subst q1
-        simp only [Option.map_some, Option.some.injEq, q2]
-        have := hwdle wd[s] (List.getElem_mem _)
-        by_cases h0 : wd[s] = 0
-        · simp [h0]
-        · rw [if_neg h0, if_neg (by omega)]; omega
-      · rw [List.getElem?_eq_none (by rw [b2.len]; exact h), List.getElem?_eq_none h]; rfl
-    rw [this, s3]; exact hsum
+    have hs' : s < wd.length := by omega
+    refine ⟨hs', ?_⟩
+    rw [List.getElem?_eq_getElem hs'] at hx'
+    simp only [Option.some.injEq] at hx'
+    rw [hx']; exact hge1 x hx
+  intro w hw
+  rw [List.getLast?_eq_getElem?, hwdlen] at hw
+  have hL : counts.length - 1 < counts.length := by omega
+  have hmem := rankOrder_mem counts (counts.length - 1) hL
+  have hne : counts[counts.length - 1] ≠ 0 := by
+    apply hlast
+    rw [List.getLast?_eq_getElem?, List.getElem?_eq_getElem hL]
+  have hflag : (counts[counts.length - 1] == 0) = false := by simpa using hne
+  obtain ⟨x, hx, hx'⟩ := w2 _ hmem hflag
+  simp only at hx'
+  rw [hx'] at hw
+  simp only [Option.some.injEq] at hw
+  subst hw
+  exact hge1 x hx
+
+/-- … in particular a complete code in the sense of the description round trips (`KraftTable`) -/
+theorem compressor_table_kraft (counts : List Nat) (hlen : counts.length ≤ 256)
+    (hn : 2 ≤ counts.length - ((rankOrder counts).filter (·.2)).length)
+    (hlast : ∀ c, counts.getLast? = some c → c ≠ 0) :
+    ∃ t M, buildFromCounts counts = .ok t ∧ KraftTable t M := by
+  obtain ⟨t, wd, m, h1, c, _, _⟩ := compressor_table_canon counts hlen hn hlast
+  exact ⟨t, m, h1, c.kraft⟩
 
 /-! ## weight descriptions -/
 
@@ -383,18 +352,42 @@ theorem weights_roundtrip_direct (fseEnc : List Nat → Except Fault (List Nat))
         st'.bits = t.codes.map (·.2) ∧ st'.maxNumBits = M :=
   direct_roundtrip fseEnc t M k hdirect st tail
 
-/-- **FSE-compressed weight description round trip** (more than 16 transmitted weights), under the
-explicit hypothesis `FseWeightsContract` (C12: `write_read_table`, `enc_table_eq_dec_table`,
-`encode_decode_interleaved`): when the FSE encoder returns fewer than 128 bytes, `write_table`
-writes size byte + payload and the decoder ends up with the encoder's code lengths. -/
-theorem weights_roundtrip_fse (fseEnc : List Nat → Except Fault (List Nat)) (hfse : FseWeightsContract fseEnc)
-    (t : EncTable) (M : Nat) (k : KraftTable t M) (hfseform : t.codes.length - 1 > 16)
-    (bytes : List Nat) (henc : fseEnc (encWeights t M).dropLast = .ok bytes) (hsmall : bytes.length < 128)
-    (st : DecTable) (tail : List Nat) :
-    writeTable fseEnc t = .ok (bytes.length :: bytes) ∧
-      ∃ st', buildDecoder st ((bytes.length :: bytes) ++ tail) = (st', .ok (bytes.length :: bytes).length) ∧
-        st'.bits = t.codes.map (·.2) ∧ st'.maxNumBits = M :=
-  fse_roundtrip fseEnc hfse t M k hfseform bytes henc hsmall st tail
+/-- **FSE-compressed weight description round trip** (more than 16 transmitted weights),
+UNCONDITIONAL for the real FSE coder with the production parameters (`Model.Enc.fseWeights`: normaliser
+with max log 6 and zero-bit avoidance, `write_table`, `encode_interleaved` — composition of the C12
+theorems in `Proofs/HufFseContract.lean`): for every canonical table the FSE coder does not panic on
+the transmitted weights; if it returns fewer than 128 bytes, `write_table` writes size byte + payload
+and the decoder — from any table state, with any bytes after the description — ends up with the
+encoder's code lengths, the dropped last weight re-inferred, the description exactly consumed, and a
+table that decodes the encoder's code; if it returns 128 bytes or more `write_table` panics at its
+`assert!` (that this never happens is `fse_weights_lt_128_full`). -/
+theorem weights_roundtrip_fse {t : EncTable} {wd : List Nat} {m : Nat} (c : CanonTable t wd m)
+    (hfseform : wd.length - 1 > 16) :
+    ∃ bytes, Model.Enc.fseWeights wd.dropLast = .ok bytes ∧
+      (bytes.length < 128 →
+        writeTable Model.Enc.fseWeights t = .ok (bytes.length :: bytes) ∧
+        ∀ (st : DecTable) (tail : List Nat), (∀ b ∈ tail, b < 256) →
+          ∃ st', buildDecoder st ((bytes.length :: bytes) ++ tail) = (st', .ok (bytes.length :: bytes).length) ∧
+            st'.bits = t.codes.map (·.2) ∧ st'.maxNumBits = m ∧ DecodesCode st' t m) ∧
+      (128 ≤ bytes.length →
+        writeTable Model.Enc.fseWeights t = .error (.assert "huff0_encoder.rs:write_table:encoded_len<128")) := by
+  obtain ⟨bytes, h1, h2, h3⟩ := descReads_fse c hfseform
+  refine ⟨bytes, h1, ?_, h3⟩
+  intro hsmall
+  obtain ⟨hw, hr⟩ := h2 hsmall
+  refine ⟨hw, ?_⟩
+  intro st tail htail
+  obtain ⟨st', q1, q2, q3⟩ := buildDecoder_of_reads c _ hr st tail htail
+  exact ⟨st', q1, q3, q2.mb, q2⟩
+
+/-- the contract form (kept for users that are parametric in the FSE coder): the production coder
+satisfies `FseWeightsContract` on every weight vector `write_table` can pass to it -/
+theorem fse_contract_production (ws bytes : List Nat) (h4 : 4 ≤ ws.length) (h257 : ws.length ≤ 257)
+    (hle : ∀ w ∈ ws, w ≤ 11) (hpos : ∃ w ∈ ws, 1 ≤ w)
+    (henc : Model.Enc.fseWeights ws = .ok bytes) (hsmall : bytes.length < 128) :
+    ∀ (st : DecTable) (tail : List Nat), (∀ b ∈ tail, b < 256) →
+      readWeights st (bytes.length :: (bytes ++ tail)) = ({ st with weights := ws }, .ok (1 + bytes.length)) :=
+  fseWeights_contract_on ws bytes h4 h257 hle hpos henc hsmall
 
 /-- `fse_weights_lt_128`, the part that is a theorem about the model: the
 `assert!(encoded_len < 128)` of `write_table` fires exactly when the FSE encoder returns 128 bytes
@@ -405,42 +398,137 @@ theorem fse_weights_lt_128_partial (fseEnc : List Nat → Except Fault (List Nat
     writeTable fseEnc t = .error (.assert "huff0_encoder.rs:write_table:encoded_len<128") ↔ 128 ≤ bytes.length :=
   writeTable_assert_iff fseEnc t M k hfseform bytes henc
 
-/-- Full strength of `fse_weights_lt_128` (NOT proved here): for the production FSE encoder
-`fseEncProd` (the model of `build_table_from_data(ws, 6, true)` + `write_table` +
-`encode_interleaved`, part of the C12 slice) every table `build_from_counts` returns has a weight
-description that `write_table` writes without hitting the assertion.  What is missing is a bound on
-the FSE payload in terms of the normalised distribution; the correspondence run sweeps every
-alphabet size with every number of unused symbols through the real encoder instead (engine `huf`,
-statistic `desc_fse_maxlen`; the largest description observed is far below 128 bytes). -/
-def fse_weights_lt_128_full (fseEncProd : List Nat → Except Fault (List Nat)) : Prop :=
+/-- Full strength of `fse_weights_lt_128` (NOT proved): every table `build_from_counts` returns has
+a weight description that `write_table`, with the real FSE coder, writes without hitting the
+assertion.  By `weights_roundtrip_fse` / `weights_roundtrip_direct` the ONLY way `write_table` can
+fail on a canonical table is `Model.Enc.fseWeights` returning 128 bytes or more, so what is missing is
+exactly a size bound for the FSE coder on the compressor's weight vectors.  A bound from per-symbol
+worst-case bit costs is not true for arbitrary weight vectors (255 weights spread evenly over 12
+values need more than 128 bytes), it depends on the shapes; evaluating the coder over the finite set
+shape × number of unused symbols × dropped weight is about 10^5 normaliser runs and does not fit the
+kernel-evaluation budget.  The correspondence run sweeps every alphabet size with every number of
+unused symbols through the real encoder instead (engine `huf`, note `fse_weights_lt_128 sweep`:
+largest payload 69 bytes). -/
+def fse_weights_lt_128_full : Prop :=
   ∀ counts t, counts.length ≤ 256 → buildFromCounts counts = .ok t →
-    ∃ desc, writeTable fseEncProd t = .ok desc
+    ∃ desc, writeTable Model.Enc.fseWeights t = .ok desc
 
-/-- a Compressed literals section header -/
-def compressedSection (regen csize streams : Nat) : LitSection :=
-  { lsType := LitType.compressed, regeneratedSize := regen, compressedSize := some csize, numStreams := some streams }
+/-- what is proved of it: for canonical tables `write_table` succeeds unless the FSE coder returns 128
+bytes or more — no other panic site of `write_table`, the normaliser, the FSE table builder or the
+interleaved coder is reachable -/
+theorem fse_weights_lt_128_canon_partial {t : EncTable} {wd : List Nat} {m : Nat} (c : CanonTable t wd m) :
+    (∃ desc, writeTable Model.Enc.fseWeights t = .ok desc) ∨
+      (∃ bytes, Model.Enc.fseWeights wd.dropLast = .ok bytes ∧ 128 ≤ bytes.length ∧
+        writeTable Model.Enc.fseWeights t = .error (.assert "huff0_encoder.rs:write_table:encoded_len<128")) := by
+  by_cases hform : wd.length - 1 ≤ 16
+  · obtain ⟨desc, h, _⟩ := descReads_direct Model.Enc.fseWeights c hform
+    exact Or.inl ⟨desc, h⟩
+  · obtain ⟨bytes, h1, h2, h3⟩ := descReads_fse c (by omega)
+    by_cases hs : bytes.length < 128
+    · exact Or.inl ⟨_, (h2 hs).1⟩
+    · exact Or.inr ⟨bytes, h1, by omega, h3 (by omega)⟩
 
-/-- Full strength of the stream round trips (NOT proved here; tied by the correspondence run and the
-implementation-only round-trip oracle through the real `decode_literals`): one stream … -/
-def encode_decode_1stream_full : Prop :=
-  ∀ (fseEnc : List Nat → Except Fault (List Nat)) (t : EncTable) (M : Nat), KraftTable t M →
-    (∀ (s : Nat) (c : Nat × Nat), t.codes[s]? = some c → c.2 > 0 → c.1 < 2 ^ c.2) →
-    ∀ (data : List Nat), (∀ s ∈ data, ∃ c : Nat × Nat, t.codes[s]? = some c ∧ c.2 > 0) →
-    ∀ desc, writeTable fseEnc t = .ok desc → (∀ st tail, ∃ st', buildDecoder st (desc ++ tail) = (st', .ok desc.length)) →
+/-! ## the streams -/
+
+/-- **One stream** (`HuffmanEncoder::encode` with the table, then `decode_literals` on a Compressed
+section with one stream).  For every canonical table (in particular every table the compressor builds,
+`compressor_table_canon`), every literal string over symbols that have a code, and the description
+`write_table` wrote — provided the decoder reads that description back (`DescReads`: proved for the
+direct form, and for the FSE form by `weights_roundtrip_fse`): `encode` does not panic, and
+`decode_literals`, from any table state, with any bytes after the section and any literals already in
+the target, appends exactly the literals, reports exactly the section's bytes as read, and leaves a
+table that decodes the code (so a following Treeless section works).
+What the one-stream path checks: only the total number of regenerated literals; it does NOT verify
+`bits_remaining == -max_num_bits` (the four-stream path does) — `one_stream_exact` states that the
+stream is nevertheless exactly consumed. -/
+theorem encode_decode_1stream (fseEnc : List Nat → Except Fault (List Nat)) {t : EncTable} {wd : List Nat} {m : Nat}
+    (c : CanonTable t wd m) (data : List Nat) (hdata : Encodable wd data)
+    (desc : List Nat) (hdesc : writeTable fseEnc t = .ok desc) (hr : DescReads desc wd.dropLast) :
     ∃ bytes, encode fseEnc t data true = .ok bytes ∧
-      ∀ st tail, (decodeLiterals (compressedSection data.length bytes.length 1) st (bytes ++ tail) []).2
-        = .ok (data, bytes.length)
+      ∀ (st : DecTable) (tail target : List Nat), ∃ st',
+        decodeLiterals (litSection .compressed (target.length + data.length) bytes.length 1) st (bytes ++ tail) target
+          = (st', .ok (target ++ data, bytes.length)) ∧ DecodesCode st' t m :=
+  roundtrip_1stream fseEnc c data hdata desc hdesc hr
 
-/-- … and four streams, any length the compressor uses (≥ 6; the model faults for 5 and below 4
-exactly like the code) -/
-def encode_decode_4streams_full : Prop :=
-  ∀ (fseEnc : List Nat → Except Fault (List Nat)) (t : EncTable) (M : Nat), KraftTable t M →
-    (∀ (s : Nat) (c : Nat × Nat), t.codes[s]? = some c → c.2 > 0 → c.1 < 2 ^ c.2) →
-    ∀ (data : List Nat), 6 ≤ data.length → (∀ s ∈ data, ∃ c : Nat × Nat, t.codes[s]? = some c ∧ c.2 > 0) →
-    ∀ desc, writeTable fseEnc t = .ok desc → (∀ st tail, ∃ st', buildDecoder st (desc ++ tail) = (st', .ok desc.length)) →
+/-- every stream is exactly consumed: after the symbols have been regenerated the reader stands at
+`bits_remaining = -max_num_bits`, whether or not the caller checks it (`check` = the four-stream
+variant that does) -/
+theorem one_stream_exact (tbl : DecTable) (t : EncTable) (m : Nat) (dc : DecodesCode tbl t m)
+    (data stream : List Nat) (henc : encodeStream t data = .ok stream) (check : Bool) (outRev : List Nat) :
+    decodeOneStream tbl stream check outRev = .ok (data.reverse ++ outRev) :=
+  decodeOneStream_encodeStream tbl t m dc data stream henc check outRev
+
+/-- one stream, Treeless (`with_table = false`): against any decoder table that decodes the code -/
+theorem encode_decode_1stream_treeless (fseEnc : List Nat → Except Fault (List Nat)) {t : EncTable} {wd : List Nat}
+    {m : Nat} (c : CanonTable t wd m) (data : List Nat) (hdata : Encodable wd data) :
+    ∃ bytes, encode fseEnc t data false = .ok bytes ∧
+      ∀ (st : DecTable) (tail target : List Nat), DecodesCode st t m →
+        decodeLiterals (litSection .treeless (target.length + data.length) bytes.length 1) st (bytes ++ tail) target
+          = (st, .ok (target ++ data, bytes.length)) :=
+  roundtrip_1stream_treeless fseEnc c data hdata
+
+/-- **Four streams** (`encode4x`: split `⌈len/4⌉`, jump table; then `decode_literals` with four
+streams, each of which must end at `bits_remaining == -max_num_bits`): for every canonical table and
+every literal string over coded symbols of any length the compressor uses — at least 4 and not 5
+(`encode4x_split_faults`; `compress_literals` switches to four streams at 6), at most 128 KiB (so that
+the three jump-table entries fit `u16`, which `encode4x` asserts). -/
+theorem encode_decode_4streams (fseEnc : List Nat → Except Fault (List Nat)) {t : EncTable} {wd : List Nat} {m : Nat}
+    (c : CanonTable t wd m) (data : List Nat) (hdata : Encodable wd data)
+    (hlen : 4 ≤ data.length) (h5 : data.length ≠ 5) (hmax : data.length ≤ 131072)
+    (desc : List Nat) (hdesc : writeTable fseEnc t = .ok desc) (hr : DescReads desc wd.dropLast) :
     ∃ bytes, encode4x fseEnc t data true = .ok bytes ∧
-      ∀ st tail, (decodeLiterals (compressedSection data.length bytes.length 4) st (bytes ++ tail) []).2
-        = .ok (data, bytes.length)
+      ∀ (st : DecTable) (tail target : List Nat), ∃ st',
+        decodeLiterals (litSection .compressed (target.length + data.length) bytes.length 4) st (bytes ++ tail) target
+          = (st', .ok (target ++ data, bytes.length)) ∧ DecodesCode st' t m :=
+  roundtrip_4streams fseEnc c data hdata hlen h5 hmax desc hdesc hr
+
+theorem encode_decode_4streams_treeless (fseEnc : List Nat → Except Fault (List Nat)) {t : EncTable} {wd : List Nat}
+    {m : Nat} (c : CanonTable t wd m) (data : List Nat) (hdata : Encodable wd data)
+    (hlen : 4 ≤ data.length) (h5 : data.length ≠ 5) (hmax : data.length ≤ 131072) :
+    ∃ bytes, encode4x fseEnc t data false = .ok bytes ∧
+      ∀ (st : DecTable) (tail target : List Nat), DecodesCode st t m →
+        decodeLiterals (litSection .treeless (target.length + data.length) bytes.length 4) st (bytes ++ tail) target
+          = (st, .ok (target ++ data, bytes.length)) :=
+  roundtrip_4streams_treeless fseEnc c data hdata hlen h5 hmax
+
+/-- **The compressor's path, end to end, with the real FSE coder**: histogram → table → description
+(direct or FSE-compressed) → four streams → `decode_literals`.  For every literal string of 6 … 128 KiB
+bytes with at least two distinct values: unless `write_table` hits its `assert!(encoded_len < 128)`
+(see `fse_weights_lt_128_full`), nothing panics and the literals come back. -/
+theorem literals_roundtrip_compressor (counts : List Nat) (hlen : counts.length ≤ 256)
+    (hn : 2 ≤ counts.length - ((rankOrder counts).filter (·.2)).length)
+    (hlast : ∀ c, counts.getLast? = some c → c ≠ 0)
+    (data : List Nat) (hd : ∀ s ∈ data, ∃ h : s < counts.length, counts[s] ≠ 0)
+    (h6 : 6 ≤ data.length) (hmax : data.length ≤ 131072) :
+    ∃ t, buildFromCounts counts = .ok t ∧
+      ((∃ bytes, encode4x Model.Enc.fseWeights t data true = .ok bytes ∧
+          ∀ (st : DecTable) (tail target : List Nat), ∃ st',
+            decodeLiterals (litSection .compressed (target.length + data.length) bytes.length 4) st (bytes ++ tail) target
+              = (st', .ok (target ++ data, bytes.length))) ∨
+        writeTable Model.Enc.fseWeights t = .error (.assert "huff0_encoder.rs:write_table:encoded_len<128")) := by
+  obtain ⟨t, wd, m, hb, c, hwdlen, hused⟩ := compressor_table_canon counts hlen hn hlast
+  refine ⟨t, hb, ?_⟩
+  have henc : Encodable wd data := by
+    intro s hsd
+    obtain ⟨hsc, hne⟩ := hd s hsd
+    exact hused s hsc hne
+  rcases fse_weights_lt_128_canon_partial c with ⟨desc, hdesc⟩ | ⟨bytes, _, _, hass⟩
+  · left
+    have hr : DescReads desc wd.dropLast := by
+      by_cases hform : wd.length - 1 ≤ 16
+      · obtain ⟨desc', h1, h2⟩ := descReads_direct Model.Enc.fseWeights c hform
+        rw [hdesc] at h1; simp only [Except.ok.injEq] at h1; subst h1; exact h2
+      · obtain ⟨bytes, _, h2, h3⟩ := descReads_fse c (by omega)
+        by_cases hs : bytes.length < 128
+        · obtain ⟨h1, h2'⟩ := h2 hs
+          rw [hdesc] at h1; simp only [Except.ok.injEq] at h1; subst h1; exact h2'
+        · rw [h3 (by omega)] at hdesc; cases hdesc
+    obtain ⟨bytes, q1, q2⟩ := roundtrip_4streams Model.Enc.fseWeights c data henc (by omega) (by omega) hmax desc hdesc hr
+    refine ⟨bytes, q1, ?_⟩
+    intro st tail target
+    obtain ⟨st', q, _⟩ := q2 st tail target
+    exact ⟨st', q⟩
+  · exact Or.inr hass
 
 /-- The 4-stream splitter: `encode4x` panics for fewer than 4 literals (the `assert!`) and for
 exactly 5 (`&data[split*2..split*3]` with `split = 2`), and for no other length because of the
@@ -482,6 +570,17 @@ example : buildFromCounts [0, 0, 0, 0, 0, 0, 0, 2000]
 
 /-- non-vacuity of `huf_table_eq_canonical`: the Spec assigns a table to the weights 2,1,0,3 -/
 example : (Spec.Huffman.tableOfWeights [2, 1, 0, 3]).isSome = true := by decide
+
+/-- non-vacuity of the whole chain (`compressor_table_canon`, `CanonTable`, `Encodable`, `DescReads`,
+the stream theorems): the histogram and the literals of the unit test `from_data` -/
+example : ∃ t, buildFromCounts [3, 0, 4, 1, 5] = .ok t ∧
+    ((∃ bytes, encode4x Model.Enc.fseWeights t [0, 2, 4, 4, 0, 3, 2, 2, 0, 2] true = .ok bytes ∧
+        ∀ (st : DecTable) (tail target : List Nat), ∃ st',
+          decodeLiterals (litSection .compressed (target.length + 10) bytes.length 4) st (bytes ++ tail) target
+            = (st', .ok (target ++ [0, 2, 4, 4, 0, 3, 2, 2, 0, 2], bytes.length))) ∨
+      writeTable Model.Enc.fseWeights t = .error (.assert "huff0_encoder.rs:write_table:encoded_len<128")) :=
+  literals_roundtrip_compressor [3, 0, 4, 1, 5] (by decide) (by decide) (by decide)
+    [0, 2, 4, 4, 0, 3, 2, 2, 0, 2] (by decide) (by decide) (by decide)
 
 /-- non-vacuity of `compressor_table_valid` / `compressor_table_kraft` and of the `KraftTable`
 hypothesis of the description round trips: the histogram of the unit test `counts` -/
